@@ -277,6 +277,16 @@ def run(ctx):
             for bb, t in g.calls():
                 if call_matches(t, r"HeaderField::equiv$"):
                     lookup |= {c for c in arg_consts(g, t) if isinstance(c, str)}
+    # ... or through a lookup helper of the crate (anywhere) that is handed the header list and the name
+    for fid in sorted(local_reach(facts, cte.id)):
+        g = facts.fns.get(fid)
+        if g is None:
+            continue
+        for bb, t in g.calls():
+            h = facts.fns.get(call_name(t))
+            if h is not None and h.rec.get("local") and "{closure" not in h.id and any("common::Header" in h.local_ty(i) for i in range(1, h.argc + 1)) \
+                    and any(re.search(r"&('\w+ )?str\b", h.local_ty(i)) for i in range(1, h.argc + 1)):
+                lookup |= {c for c in arg_consts(g, t) if isinstance(c, str)}
     ctx.ob("C05.1", "%s|looks-up-TE" % cte.id, "the client's preference is read from the `TE` request header", lookup == {"TE"}, where, str(sorted(lookup)))
     thr_values = [0, 1, 5, 32768]
     versions = [(0, 9), (1, 0), (1, 1), (1, 2), (2, 0), (0, 255)]
